@@ -241,8 +241,17 @@ def run_config(cfg, rank, world, normal):
         x = rows[idx] if idx else rows[:0]
         st = {"n": len(idx)}
         c0 = len(normal.calls)
+        # cfg["micro"] = k: on the workers the local shard is taken in up to k physical batches (signal_skip_step(True)
+        # before all but the last: clip + accumulate only), the single-process reference takes the union batch at once
+        k = int(cfg.get("micro", 1)) if world > 0 else 1
+        if k > 1 and len(idx) >= 2:
+            per = -(-len(idx) // k)
+            chunks = [idx[i : i + per] for i in range(0, len(idx), per)]
+        else:
+            chunks = [idx]
+        st["micro"] = [len(c) for c in chunks]
         try:
-            if cfg.get("closure"):
+            if cfg.get("closure") and k <= 1:
                 def closure():
                     opt.zero_grad()
                     loss = crit(module(x), torch.zeros(len(idx)))
@@ -251,11 +260,15 @@ def run_config(cfg, rank, world, normal):
 
                 opt.step(closure)
             else:
-                opt.zero_grad()
-                out = module(x)
-                loss = crit(out, torch.zeros(len(idx)))
-                loss.backward()
-                opt.step()
+                for j, ch in enumerate(chunks):
+                    xc = rows[ch] if ch else rows[:0]
+                    if k > 1:
+                        opt.signal_skip_step(do_skip=(j + 1 < len(chunks)))
+                    opt.zero_grad()
+                    out = module(xc)
+                    loss = crit(out, torch.zeros(len(ch)))
+                    loss.backward()
+                    opt.step()
             st["grad"] = grads(module)
             st["params"] = snapshot(module)
         except Exception as e:
